@@ -191,8 +191,9 @@ CHECKS = {
           "excepted) before its importer, has checked that each declares the imported package, contains the entry and exactly one main; symbol "
           "resolution returns the first root in the documented order (search paths first for bloch.*) that has the file; the traversal "
           "terminates on every import graph (cyclic or not). Tied by random and hand-written trees written to disk and loaded through the public "
-          "ModuleLoader, comparing merged order or diagnostic class/category with the extracted model. Completeness of cycle detection (no false "
-          "cycle on DAGs) is covered by the correspondence only.", "DESIGN.md §6 C19"),
+          "ModuleLoader, comparing merged order or diagnostic class/category with the extracted model. 'Import cycle' is never a false alarm (it is "
+          "answered only when some module reaches itself through imports as they resolve on that file system), and a load that succeeded has no "
+          "cycle through any module it loaded.", "DESIGN.md §6 C19"),
    note="Trusted: Coq kernel; extraction; glue. std::filesystem canonicalisation, symlinks, '..' not modelled (generated trees are canonical).",
    technique="Coq proof (DFS invariant with fuel, parameterised recursion) + extraction-based correspondence on real directory trees"),
  "C20": dict(
